@@ -663,7 +663,7 @@ func first(a, _ []byte) []byte { return a }
 //@   opt extent on
 //@   let rootTag0 = t.root.tag
 //@   requires WF1in_alpha(t) && sizeSane(t)
-//@   ensures[removed_key_matches] implies(result, leafKeyIs_alpha(leaf, keyS))
+//@   ensures[removed_key_matches] implies(result, old(leafKeyIs_alpha(leaf, keyS)))
 //@   assume_at_call (*nodeRef).deleteChild : implies(isMerge(*ptr) && survT(*ptr, b) != 4, survP(*ptr, b) != ptr.obj && as(node, survP(*ptr, b)).prefixLen + as(node4, (*ptr).pointer).prefixLen + 1 < 4294967296)
 //@   ensures[wf] WF1_alpha(t)
 //@   ensures[size] t.size == old(t.size) - ite(result, 1, 0)
@@ -686,7 +686,7 @@ func first(a, _ []byte) []byte { return a }
 //@   opt extent on
 //@   let rootTag0 = t.root.tag
 //@   requires WF1in_$KIND(t) && sizeSane(t)
-//@   ensures[removed_key_matches] implies(result, leafKeyIs_$KIND(leaf, keyS))
+//@   ensures[removed_key_matches] implies(result, old(leafKeyIs_$KIND(leaf, keyS)))
 //@   assume_at_call (*nodeRef).deleteChild : implies(isMerge(*ptr) && survT(*ptr, b) != 4, survP(*ptr, b) != ptr.obj && as(node, survP(*ptr, b)).prefixLen + as(node4, (*ptr).pointer).prefixLen + 1 < 4294967296)
 //@   ensures[wf] WF1_$KIND(t)
 //@   ensures[size] t.size == old(t.size) - ite(result, 1, 0)
@@ -857,7 +857,7 @@ func first(a, _ []byte) []byte { return a }
 //@   opt extent on
 //@   let rootTag0 = t.root.tag
 //@   requires WF1in_collation(t) && sizeSane(t)
-//@   ensures[removed_key_matches] implies(result, leafKeyIs_collation(leaf, keyS))
+//@   ensures[removed_key_matches] implies(result, old(leafKeyIs_collation(leaf, keyS)))
 //@   ensures[scratch_bounded] scratchLen(t.cok.buf) < 2147483648
 //@   assume_at_call (*nodeRef).deleteChild : implies(isMerge(*ptr) && survT(*ptr, b) != 4, survP(*ptr, b) != ptr.obj && as(node, survP(*ptr, b)).prefixLen + as(node4, (*ptr).pointer).prefixLen + 1 < 4294967296)
 //@   ensures[wf] WF1_collation(t)
